@@ -119,12 +119,13 @@ def runNode (ws : List String) : String :=
     | none => "bad-case"
   | ["serial", m, _] => runNodeSerial m
   | ["serialc", m] => runNodeSerial m   -- the same, with events cached before the listener call
+  | ["serialmany", m, _] => runNodeSerial m   -- the same, for many turns (the model has no counters to wrap)
   | ["stop", m, sc, p] => match p.toNat? with
     | some p => runNodeStop m sc p
     | none => "bad-case"
   | ["earlyburst", m, n] => match n.toNat? with
-    -- Accepted and n messages cached; ten messages and the Disconnected live
-    | some n => if n ≤ 100000 then runNodeEarly m (n + 1) 11 else "bad-case"
+    -- Accepted, n numbered messages and six repetitive ones cached; ten messages and the Disconnected live
+    | some n => if n ≤ 100000 then runNodeEarly m (n + 7) 11 else "bad-case"
     | none => "bad-case"
   | ["earlybusy", m, _] => runNodeEarlyBusy m
   | ["early", m, c, l] => match c.toNat?, l.toNat? with
